@@ -297,6 +297,7 @@ structure Tok where
   sshTypeOk : Bool     -- `step.ssh.certType` is empty or `sshutil.CertTypeFromString` accepts it
   nebSshOk : Bool      -- Nebula: `step.ssh.principals` are the certificate's name or IPs and
                        -- `step.ssh.certType` is empty or exactly "host" (true when there is no `step.ssh`)
+  nebSansOk : Bool := true  -- Nebula sign: the token's `sans` are empty or all the certificate's name / IPs
   pop : Option Pop     -- `ExtractSSHPOPCert` result
   cr : List Cr         -- one per configured provisioner, same order as `Config.provs`
   cl : List Cl := []   -- cloud facts, one per configured provisioner (absent = all false)
@@ -472,12 +473,13 @@ def sshpopOp (cfg : Config) (p : Prov) (c : Cr) (now : Int) (op : Op) (t : Tok) 
   | .sign | .revoke | .sshSign => baseReject
 
 /-- `OIDC.authorizeToken` + `ValidatePayload`: the audience test is "`aud` contains the client id"
-    (plain string equality), not the URL match; there is no subject test here. -/
+    (plain string equality), not the URL match; the subject must be non-empty (fix 1529327). -/
 def oidcTok (p : Prov) (c : Cr) (now : Int) (t : Tok) : Out Unit := do
   need c.sig .signature
   need (p.oidcIssuer.isEmpty || p.oidcIssuer == t.iss) .issuer
   need (t.aud.any fun a => a.raw == p.clientId) .audience
   validate [] now t
+  need (!t.sub.isEmpty) .subject          -- since 1529327
   need (t.azp.isEmpty || t.azp == p.clientId) .azp
   need c.domainOk .domain
   need c.groupOk .group
@@ -520,7 +522,10 @@ def nebulaTok (cfg : Config) (p : Prov) (c : Cr) (now : Int) (op : Op) (t : Tok)
 /-- Nebula -/
 def nebulaOp (cfg : Config) (p : Prov) (c : Cr) (now : Int) (op : Op) (t : Tok) : Out Unit :=
   match op with
-  | .sign | .revoke => nebulaTok cfg p c now op t
+  | .sign => do
+    nebulaTok cfg p c now op t
+    need t.nebSansOk .subject             -- validateNebulaTokenSANs, fix 62bb26c
+  | .revoke => nebulaTok cfg p c now op t
   | .sshSign => do
     need p.sshEnabled .sshDisabled
     nebulaTok cfg p c now op t
